@@ -718,11 +718,22 @@ class C15(Prop):
             "server side, with scripted Read/Write/Close errors, short writes and retry-timer expiry; compared: per op the count, error and "
             "bytes seen by the caller / handed to the inner conn, `broken` per direction, open stream ids, parked names, and every completed "
             "trace (name, request line, headers, trailers, status, events with envelopes/lengths/indices, end-stream content, error). "
-            "c15.fuzz: arbitrary and bit-flipped byte streams, passthrough + never-crash only")
+            "DECODER / FRAMER CONFIGURATION: SETTINGS_HEADER_TABLE_SIZE raised (8192, 65536, 2^20), lowered (0, 100, 4095) or set around the "
+            "default by either peer - at the start and between streams - and adopted by the other peer's hpack.Encoder (its next block opens "
+            "with dynamic table size updates, the table is filled far beyond 4096 bytes and later blocks are index references into it); header "
+            "blocks written by hand opening with size updates at every boundary (0..32, 4095-4097, 8191-8193, 65535-65537, 2^20, 2^24, 2^31, "
+            "2^32-2, 2^32-1 accepted; 2^32, 2^32+1, 2^35 a decoding error) on request headers / response headers / trailers; DATA frames of "
+            "16384 / 16385 / 40000 / 70000 bytes, a 40 KB HEADERS frame, CONTINUATION chains of 40-60 KB, 30 KB header values; "
+            "c15.fuzz: arbitrary and bit-flipped byte streams, passthrough + never-crash only. Extra: limits probe through the real tracer "
+            "(DATA frames of 2^24-1 bytes, 2 MiB header blocks, a 9 MiB header value: one complete trace each) and the decoder limits read "
+            "off the constructed connection into C15_Consts.v")
     trusted_base = ("Coq 8.16.1 kernel", "extraction (ExtrOcamlBasic only) + ocaml/driver.ml",
                     "vlib generators/comparator, Go overlay harness (harness/C15)",
                     "modelled not verified: HPACK decoding (x/net/http2/hpack) is an oracle: a function of the header blocks seen so far in "
-                    "one direction; the run instantiates it with the table of what the real hpack.Encoder was given",
+                    "one direction; the run instantiates it with the table of what the real hpack.Encoder was given; modelled on top of it: "
+                    "the decoder's configured table limit (a block opening with a dynamic table size update above it is refused; RFC 7541 "
+                    "5.1/6.3 integer decoding transcribed from hpack.readVarInt); the limits are read off the real connection by reflection "
+                    "on hpack.Decoder.dynTab (allowedMaxSize, maxSize)",
                     "modelled not verified: end-stream decompression (identity only in the generated exchanges), time.AfterFunc (the timer "
                     "is the explicit action TimesUp)")
     assumptions = ("handleFrame, cancelAll and the retry collector's methods are each one critical section (c.mu / h.mu), and Read and "
@@ -730,7 +741,7 @@ class C15(Prop):
                    "the inner net.Conn returns 0 <= n <= len(buf)",
                    "x/net/http2's Framer accepts/rejects frames as parse_buf says (frame.go v0.37.0 transcribed; exercised on every run, "
                    "including one malformation per frame type)")
-    level_text = ("Machine-checked proof (Coq, 25 theorems). L1: every Read/Write/Close returns exactly the inner conn's bytes, count and "
+    level_text = ("Machine-checked proof (Coq, 31 theorems). L1: every Read/Write/Close returns exactly the inner conn's bytes, count and "
                   "error from ANY tracer state; for any op list, bytes and HPACK behaviour the run exists (never_crashes: no nil "
                   "dereference reachable - the model carries `builder == nil` of the response dataTracer explicitly (d_hasb; dt_flush = None when "
                   "an event would need the missing builder) and close_stream / abandon_resp mirror the code's guards branch by branch -, "
@@ -752,8 +763,19 @@ class C15(Prop):
                   "(no_name_no_trace); (d) GOAWAY(last) leaves every stream <= last exactly as without it and abandons every stream above "
                   "it exactly as setMaxStreamIDLocked does, for good (goaway_keeps_lower, goaway_cancels_higher[_any]); (e) the retry "
                   "collector delivers only the retry's trace after a retryable refusal, and the parked one exactly once when no retry "
-                  "comes. The model is tied to http2.go on every run by the differential check, whose generator goes through every "
-                  "production of the grammar (counted in evidence: grammar_shapes).")
+                  "comes; (f) decoder configuration: HPACK decoding is an oracle, but which blocks a decoder REFUSES because of the "
+                  "dynamic-table limit TracingHTTP2Conn builds it with is modelled (cfg_dec: a block opening with a dynamic table size update "
+                  "above the limit); well-formed traffic = the receiver announced SETTINGS_HEADER_TABLE_SIZE = any 32-bit value and the blocks' "
+                  "size updates stay below it, i.e. the receiver's own decoder is cfg_dec allowed dec; with decoders built with math.MaxUint32 the "
+                  "tracer decodes exactly what the receiver decodes for EVERY negotiable size and ANY oracle, emits the receiver's frames for all "
+                  "byte streams and chunkings and whole runs coincide (unlimited_decodes_what_the_receiver_decodes, "
+                  "tracer_frames_are_the_receivers_frames, tracer_runs_as_with_the_receivers_decoders), so every theorem above (all hold for "
+                  "ANY decoder) speaks about the fields the receiver sees; a limit suffices iff it is >= 2^32-1 (limit_suffices_iff; the "
+                  "protocol default 4096 is refuted by a concrete block, Example limit_4096_refuted); the limits the compiled code gives its "
+                  "four decoders are read off the constructed connection on every run and proved sufficient (configured_decoders_suffice, "
+                  "configured_decoders_complete). The model is tied to http2.go on every run by the differential check, whose generator goes "
+                  "through every production of the grammar (counted in evidence: grammar_shapes) and through table sizes negotiated above and "
+                  "below 4096 by either peer with the table actually used (cfg/* shapes).")
     level_note = ("Gaps: the grammar leaves out 1xx response HEADERS, request HEADERS arriving after the stream is over, and streams ended "
                   "by cancelAll (connection close; modelled and exercised, not in a content theorem); wellformed_interleaving_traces "
                   "excludes GOAWAY inside the interleaving (GOAWAY is covered by goaway_keeps_lower / goaway_cancels_higher plus "
@@ -762,8 +784,15 @@ class C15(Prop):
                   "messages are defined by threading the envelope parser over the DATA payloads; equality with one parse of the whole body "
                   "is C14's theorem, not re-proved for this model's dt_*. From completions to collector deliveries only the refusal/retry "
                   "patterns are proved. spec_frames still uses parse_buf (the transcription of Framer.ReadFrame) for a single unit. "
+                  "The framer emitFrame builds has the library's defaults: frames up to 2^24-1 bytes (the protocol maximum: no legal "
+                  "frame is refused; probed on every run), header lists up to 16 MiB and header strings up to 16 MiB - beyond that the "
+                  "library truncates the field list silently or fails (the tracer: fields missing / broken); the model has NO such limit, "
+                  "the generated traffic stays below it (largest: 9 MiB value in the probe) and 16 MiB is also the limit of the grpc-go "
+                  "peers the tracer is installed in (grpcclient / grpcserver), so this is recorded as a boundary of the check, not a finding. "
+                  "The tracer's decoders START at 2^32-1 too instead of 4096 (they never evict until a size update arrives): harmless for "
+                  "decoding (indices count from the newest entry), memory only. "
                   "Trusted: Coq kernel, extraction, OCaml driver, harness, generator. HPACK decoding is an oracle (function of the "
-                  "direction's header-block history); Framer.ReadFrame's structural checks are transcribed from x/net v0.37.0 and compared "
+                  "direction's header-block history; only the table-limit refusal is modelled on top of it); Framer.ReadFrame's structural checks are transcribed from x/net v0.37.0 and compared "
                   "on every run; dataTracer's uint32 subtraction `expecting - uint32(actual)` is modelled with its wrap-around (dt_need: reached "
                   "only when response DATA precedes the response HEADERS); compression of end-stream messages is outside the modelled fragment (identity only); strconv.Atoi signs "
                   "in :status not modelled; time.AfterFunc is the explicit TimesUp action; lock-region atomicity assumed.")
@@ -817,7 +846,7 @@ class C15(Prop):
             raise core.HarnessError("C15 limits probe: %d lines instead of 10" % len(lines))
         bad = []
         for l in lines:
-            kv = dict(x.split("=") for x in l.split()[1:])
+            kv = dict(x.split("=", 1) for x in l.split()[1:])
             if not (kv["traces"] == "1" and kv["broken"] == "0" and kv["reqmsg"] == kv["want-msg"] == kv["respmsg"]
                     and kv["hdr"] == kv["want-hdr"]):
                 bad.append(l)
